@@ -24,7 +24,7 @@ def units_of_word(word, level):
     return [''.join(syl) for syl in word]
 
 
-def reference(train_trees, level, kind, thr, pwb):
+def reference(train_trees, level, kind, thr, pwb, sep=(' ', ';esyll', ';eword')):
     """direct counts and the published probabilities, in exact arithmetic"""
     nlines = nwords = nunits = 0
     ini, fin = collections.Counter(), collections.Counter()
@@ -38,8 +38,9 @@ def reference(train_trees, level, kind, thr, pwb):
         ini[words[0][0]] += 1
         fin[words[-1][-1]] += 1
         for i, w in enumerate(words):
-            # a word type is a distinct tagged word (syllable structure included)
-            types.add((tuple(w), tuple(tuple(syl) for syl in utt[i])))
+            # a word type is a distinct tagged word: its unit sequence and whatever structure the defined
+            # levels of the separator can express (an undefined level merges words that differ only there)
+            types.add((tuple(w), sl.render([utt[i]], sep, 'compact')))
             for a, b in zip(w, w[1:]):
                 within[(a, b)] += 1
             if i + 1 < len(words):
@@ -121,7 +122,7 @@ def make_case(train_trees, sep, style, level, test_units, kind, thr, pwb, family
         if out[0] != 'ok':
             return 'training on a well-formed tagged text raised ' + out[1]
         summ, seg = out[1]
-        ref, probs = reference(train_trees, level, kind, thr, pwb)
+        ref, probs = reference(train_trees, level, kind, thr, pwb, sep)
         for k in ('nlines', 'nwords', 'nphones', 'phrase_initial', 'phrase_final', 'internal', 'spanning', 'diphones'):
             if summ[k] != ref[k]:
                 return 'summary.%s = %r, direct count gives %r' % (k, summ[k], ref[k])
